@@ -196,8 +196,15 @@ def run_harness(crate, features, harness, extra=None, timeout=None, playback=Fal
     res = {'harness': harness, 'wall_s': round(wall, 2), 'rc': rc, 'timed_out': timed_out}
     checks = []
     for m in CHECK_RE.finditer(out):
+        cls = classify(m.group(4), m.group(2))
+        # an `assert!` written in the HARNESS (the oracle) is never a "controlled panic of the library":
+        # harnesses that accept controlled panics (allow = ['assert', 'panic']) must still fail on their own
+        # assertions (seed w9-C05-m1: a palette 2 bytes past the tag stayed inside the harness's array, so the
+        # only failing check was the harness's `34 + 3 * len <= size`)
+        if cls == 'assert' and 'verif_kani::' in m.group(5):
+            cls = 'harness-assert'
         checks.append({'id': m.group(2), 'status': m.group(3), 'desc': m.group(4), 'loc': m.group(5),
-                       'class': classify(m.group(4), m.group(2))})
+                       'class': cls})
     res['n_checks'] = len(checks)
     res['failed'] = [c for c in checks if c['status'] == 'FAILURE']
     res['unreachable'] = sum(1 for c in checks if c['status'] == 'UNREACHABLE')
